@@ -9,11 +9,16 @@
 (***************************************************************************)
 EXTENDS Integers, Sequences, FiniteSets, TLC
 
+\* (the type comments are for Apalache, see Apa_ResultsFile.tla; TLC ignores them)
+\* @type: (a -> b, a, b) => (a -> b);
 Save(file, name, entry) ==
   IF name \in DOMAIN file THEN file
   ELSE [x \in DOMAIN file \cup {name} |-> IF x = name THEN entry ELSE file[x]]
 
+\* @type: (a -> b, a -> b) => Bool;
 EarlierUnchanged(file, file2) == \A x \in DOMAIN file : x \in DOMAIN file2 /\ file2[x] = file[x]
+\* @type: (Seq(Seq(a))) => <<Int, Int>>;
 Shape(m) == <<Len(m), IF Len(m) = 0 THEN 0 ELSE Len(m[1])>>
+\* @type: (Seq(Seq(a))) => Bool;
 Rectangular(m) == \A i \in 1..Len(m) : Len(m[i]) = Len(m[1])
 =============================================================================
